@@ -53,7 +53,9 @@ func vhSigAllSwap(kind nut10.SecretKind) {
 	v.Assume(serr == nil)
 	v.Assume(len(secret) <= cashu.MAX_SECRET_LENGTH)
 	proofs := cashu.Proofs{env.genuineProofFor(secret)}
-	nPlain := v.Int("plainInputsBefore", 0, 1) // position of the flagged input: a plain input may come first
+	// position of the flagged input: 0 alone, 1 behind a plain input, 2 behind an input with the same lock (same keys, n_sigs,
+	// locktime) that does not carry SIG_ALL
+	nPlain := v.Int("plainInputsBefore", 0, 2)
 	var err error
 	if kind == nut10.P2PK {
 		proofs, err = nut11.AddSignatureToInputs(proofs, signer)
@@ -62,30 +64,61 @@ func vhSigAllSwap(kind nut10.SecretKind) {
 	}
 	v.Assume(err == nil)
 	outs := cashu.BlindedMessages{env.output("out0", 0, 0)}
-	mode := v.Int("outputs.witness", 0, 2)
+	// outputs: 0 witnesses by the library helper, 1 none, 2 helper with a foreign key, 3 (HTLC) signed by the right key but
+	// without the preimage
+	mode := v.Int("outputs.witness", 0, 3)
+	if mode == 3 {
+		v.Assume(kind == nut10.HTLC)
+		v.Assume(preimage != "") // the empty string is a preimage like any other: the case is about a *missing* right one
+	}
 	okey := signer
 	if mode == 2 {
 		okey = l.Foreign
 	}
 	if mode != 1 {
-		if kind == nut10.P2PK {
+		if kind == nut10.P2PK || mode == 3 {
 			outs, err = nut11.AddSignatureToOutputs(outs, okey)
 		} else {
 			outs, err = nut14.AddWitnessHTLCToOutputs(outs, preimage, okey)
 		}
 		v.Assume(err == nil)
 	}
-	if nPlain == 1 {
-		plain := env.genuineProof("plain0")
-		v.Assume(plain.Amount == vhDenoms[0])
-		v.Assume(len(plain.Secret) <= cashu.MAX_SECRET_LENGTH)
-		_, derr := nut10.DeserializeSecret(plain.Secret)
-		v.Assume(derr != nil)
-		proofs = cashu.Proofs{plain, proofs[0]}
-		outs = append(outs, env.output("out1", 0, 0))
-		if mode == 0 { // sign the second output as well
-			extra := cashu.BlindedMessages{outs[1]}
+	if nPlain >= 1 {
+		var firstIn cashu.Proof
+		if nPlain == 1 {
+			plain := env.genuineProof("plain0")
+			v.Assume(plain.Amount == vhDenoms[0])
+			v.Assume(len(plain.Secret) <= cashu.MAX_SECRET_LENGTH)
+			_, derr := nut10.DeserializeSecret(plain.Secret)
+			v.Assume(derr != nil)
+			firstIn = plain
+		} else {
+			tags2 := [][]string{}
+			for _, t := range l.Tags {
+				if len(t) > 0 && t[0] == "sigflag" {
+					continue
+				}
+				tags2 = append(tags2, t)
+			}
+			sec2 := nut10.WellKnownSecret{Kind: kind, Data: nut10.SecretData{Nonce: v.Str("nonce2"), Data: data, Tags: tags2}}
+			s2, e2 := nut10.SerializeSecret(sec2)
+			v.Assume(e2 == nil)
+			v.Assume(len(s2) <= cashu.MAX_SECRET_LENGTH)
+			v.Assume(s2 != secret)
+			f := cashu.Proofs{env.genuineProofFor(s2)}
 			if kind == nut10.P2PK {
+				f, err = nut11.AddSignatureToInputs(f, signer)
+			} else {
+				f, err = nut14.AddWitnessHTLC(f, sec2, preimage, signer)
+			}
+			v.Assume(err == nil)
+			firstIn = f[0]
+		}
+		proofs = cashu.Proofs{firstIn, proofs[0]}
+		outs = append(outs, env.output("out1", 0, 0))
+		if mode == 0 || mode == 3 { // sign the second output as well
+			extra := cashu.BlindedMessages{outs[1]}
+			if kind == nut10.P2PK || mode == 3 {
 				extra, err = nut11.AddSignatureToOutputs(extra, okey)
 			} else {
 				extra, err = nut14.AddWitnessHTLCToOutputs(extra, preimage, okey)
@@ -111,9 +144,14 @@ func vhSigAllSwap(kind nut10.SecretKind) {
 			v.Assert(err == nil, "C12/C13 SIG_ALL swap carrying the witnesses produced by the library's own helpers for inputs and outputs is accepted")
 			v.Reach("helpers-accepted")
 		} else {
-			// mixed inputs: all inputs must share the condition, so a plain input next to a SIG_ALL one is refused
-			v.Assert(err != nil, "C12 SIG_ALL swap is refused unless all inputs share the same condition")
+			// mixed inputs: all inputs must share the condition and the flag, so a plain input - or one with the same lock but
+			// without SIG_ALL - in front of a SIG_ALL one is refused
+			v.Assert(err != nil, "C12 SIG_ALL swap is refused unless all inputs share the same condition, SIG_ALL included")
+			v.Reach("mixed-rejected")
 		}
+	case 3:
+		v.Assert(err != nil, "C13 SIG_ALL swap of HTLC inputs is refused when an output carries signatures but not the preimage")
+		v.Reach("no-preimage-rejected")
 	default:
 		v.Assert(err != nil, "C12/C13 SIG_ALL swap succeeds only if every output is signed by an authorised key (wherever the flagged input sits)")
 		v.Reach("unsigned-rejected")
